@@ -240,11 +240,13 @@ func (g *Gen) object(s M, depth int) {
 	}
 	if r.Chance(250) {
 		deps := M{}
-		k := pick(r, propNames)
-		if r.Chance(500) {
-			deps[k] = []any{pick(r, propNames)}
-		} else {
-			deps[k] = g.Schema(depth - 1)
+		for i := 0; i < pick(r, []int{1, 1, 2, 3}); i++ { // one or several members with a dependency each
+			k := pick(r, propNames)
+			if r.Chance(500) {
+				deps[k] = []any{pick(r, propNames)}
+			} else {
+				deps[k] = g.Schema(depth - 1)
+			}
 		}
 		s["dependencies"] = deps
 	}
